@@ -48,6 +48,9 @@ mod bitops_avx2;
 #[cfg(test)]
 pub mod test;
 
+#[cfg(feature = "verif_hooks")]
+pub mod verif_hooks;
+
 /// Convert a 2-bit representation of a base to a char
 #[inline]
 pub fn bits_to_ascii(c: u8) -> u8 {
